@@ -553,6 +553,7 @@ def gen_ops_doc(rng, hostile=False):
     paths = {}
     npaths = rng.randint(1, 4)
     opn = 0
+    common_resp = []
     for pi_ in range(npaths):
         path = "/r%d" % pi_
         path_names = []
@@ -590,8 +591,19 @@ def gen_ops_doc(rng, hostile=False):
                 op["parameters"] = ol
             if method in ("post", "put", "patch") or rng.random() < 0.15:
                 op["requestBody"] = gen_body(rng)
+            prev = None
             for st in rng.sample(["200", "201", "204", "400", "404", "500"], rng.randint(1, 3)):
-                op["responses"][st] = gen_response(rng, st)
+                r = rng.random()
+                if st != "204" and prev is not None and r < 0.4:
+                    op["responses"][st] = copy.deepcopy(prev)              # the SAME response under another status of this operation
+                elif st != "204" and common_resp and r < 0.6:
+                    op["responses"][st] = copy.deepcopy(rng.choice(common_resp))     # ... and shared across operations
+                else:
+                    op["responses"][st] = gen_response(rng, st)
+                    if st != "204":
+                        prev = op["responses"][st]
+                        if len(common_resp) < 2:
+                            common_resp.append(prev)
             if rng.random() < 0.2:
                 op["summary"] = "summary %d" % opn
             item[method] = op
@@ -987,8 +999,8 @@ def default_pos(pid, t, D):
 DEFAULT_POS = [("default0:TInt", "TInt", 0), ("default5:TInt", "TInt", 5), ("defaultF:TBool", "TBool", False), ("defaultT:TBool", "TBool", True), ("defaultE:TStr", "TStr", ""),
                ("defaultX:TStr", "TStr", "x"), ("default00:TNum", "TNum", 0.0), ("default15:TNum", "TNum", 1.5), ("defaultEnum0:TIntEnum", "TIntEnum", 0),
                ("defaultEnum2:TIntEnum", "TIntEnum", 2), ("defaultFirst:TEnum", "TEnum", "cat")]
-PARAM_DEFAULTS = {"param-default0:TInt": 0, "param-defaultF:TBool": False, "param-defaultE:TStr": "", "param-default00:TNum": 0.0, "param-defaultEnum0:TIntEnum": 0,
-                  "param-default5:TInt": 5, "param-defaultDog:TEnum": "dog", "param-hdr-default0:TInt": 0}
+PARAM_DEFAULTS = {"param-default-zero:TInt": 0, "param-default-false:TBool": False, "param-default-empty:TStr": "", "param-default-zerof:TNum": 0.0,
+                  "param-default-enumzero:TIntEnum": 0, "param-default-five:TInt": 5, "param-default-dog:TEnum": "dog", "param-hdr-default-zero:TInt": 0}
 TARGETS = {**SCALAR_TARGETS, "TModel": T_MODEL, "TEnum": T_ENUM, "TBin": T_BIN, "BaseItem": T_MODEL, "Other": T_MODEL, "BigCat": T_MODEL}
 HOLDER_NAMES = {"fwdallof-suffix:BaseItem": "Item", "fwdallof-control:Other": "Zed", "fwdallof-suffix3:BigCat": "Cat"}
 M_INST = [{"id": 3, "when": "2020-01-01", "kind": "cat", "tags": ["a", "b"]}, {"id": 0}, {"id": 1, "zzz": True, "kind": "dog"}, {"id": 2, "kind": "bird"}, {"when": "2020-01-01"}, {"id": 4, "when": "nope"}]
@@ -1089,6 +1101,8 @@ def wire_view(r):
     for k in ("obj", "out", "py_equal", "dumps_ok", "redecode_equal", "requests", "result"):
         if k in r:
             v[k] = strip_cls(norm_multipart(r[k]) if k == "requests" else r[k])
+    if "params" in r:         # inspect.signature: argument names and their default VALUES (annotations carry class names)
+        v["params"] = [[q["name"], q["has_default"], strip_cls(q["default"])] for q in r["params"]]
     for k in ("dec_exc", "enc_exc", "exc", "redecode_exc", "fatal_op"):
         if k in r:
             v[k] = r[k].get("type")
@@ -1396,6 +1410,93 @@ def stage_c_broken_target(run, tier):
                                          "note": "the referenced schema fails: endpoint modules of the by-reference and the inline document differ"})
 
 
+# ====================================================================================================================
+# stage C (5): ONE component response under several status codes of one operation and across operations: executed
+# ====================================================================================================================
+def shared_response_doc(form, statuses_a, statuses_b):
+    problem = {"description": "a problem", "content": {"application/json": {"schema": {"$ref": SREF + "Err"}}}}
+    plain = {"description": "nothing to say"}
+    P = (lambda: {"$ref": "#/components/responses/Problem"}) if form == "ref" else (lambda: copy.deepcopy(problem))
+    N = (lambda: {"$ref": "#/components/responses/Plain"}) if form == "ref" else (lambda: copy.deepcopy(plain))
+    opa = {"operationId": "op_a", "tags": ["t"], "responses": {"200": _ok({"$ref": SREF + "Pet"}), **{st: P() for st in statuses_a}, "202": N(), "204": N()}}
+    opb = {"operationId": "op_b", "tags": ["t"], "responses": {**{st: P() for st in statuses_b}, "200": _ok({"type": "array", "items": {"$ref": SREF + "Tag"}})}}
+    opc = {"operationId": "op_c", "tags": ["u"], "responses": {st: P() for st in statuses_a[:2]}}
+    comps = {"schemas": copy.deepcopy(BASE_SCHEMAS)}
+    if form == "ref":
+        comps["responses"] = {"Problem": problem, "Plain": plain}
+    return {"openapi": "3.1.0", "info": {"title": "t", "version": "1"}, "paths": {"/a": {"get": opa}, "/b": {"get": opb}, "/c": {"delete": opc}}, "components": comps}
+
+
+def work_shared_response(args):
+    form, sa, sb = args
+    out = {"form": form, "error": None}
+    try:
+        doc = shared_response_doc(form, sa, sb)
+        out["doc"] = doc
+        canned = {"problem": {"code": 7, "msg": "m"}, "pet": {"name": "n", "age": 3, "kind": "cat"}, "tags": [{"label": "l"}]}
+        ops, labels = [], []
+        for opn, sts in (("op_a", ["200"] + sa + ["202", "204", "418"]), ("op_b", sb + ["200", "418"]), ("op_c", sa[:2] + ["200"])):
+            for st in sts:
+                body = canned["pet"] if (opn, st) == ("op_a", "200") else canned["tags"] if (opn, st) == ("op_b", "200") else canned["problem"]
+                for variant in ("sync_detailed", "sync"):
+                    rsp = {"status": int(st)} if st in ("202", "204") else {"status": int(st), "json": body}
+                    ops.append({"op": "call", "module": "api.%s.%s" % ("u" if opn == "op_c" else "t", opn), "variant": variant, "kwargs": {}, "response": rsp})
+                    labels.append([opn, st, variant])
+        with gen_dl(doc) as g:
+            if g.exc is not None:
+                out["error"] = "generate raised " + repr(g.exc)
+                return out
+            out["diag"] = [list(x) for x in g.diag()]
+            out["files"] = {k: v.decode("utf-8", "replace") for k, v in g.files().items()}
+            res = impl.run_client(g.out, ops, timeout=300)
+        if isinstance(res, dict):
+            out["error"] = "runner: " + res.get("fatal", "")[:600]
+            return out
+        out["labels"] = labels
+        out["views"] = [wire_view(r) for r in res]
+        out["parsed_cls"] = [(r.get("result") or {}).get("parsed_cls") for r in res]
+    except BaseException as e:  # noqa
+        import traceback
+        out["error"] = "harness worker: " + repr(e) + traceback.format_exc()[-800:]
+    return out
+
+
+def stage_c_shared_response(run, tier):
+    rng = run.rng
+    combos = [(["400", "404"], ["404"]), (["400", "404", "500"], ["400", "500"]), (["404", "400"], ["500", "404", "400"])]
+    if tier != "quick":
+        for _ in range(6):
+            combos.append((rng.sample(["400", "401", "403", "404", "409", "500", "503"], rng.randint(2, 4)), rng.sample(["400", "404", "500", "503"], rng.randint(1, 3))))
+    jobs = [(f, sa, sb) for sa, sb in combos for f in ("inline", "ref")]
+    with cf.ProcessPoolExecutor(max_workers=12) as ex:
+        results = list(ex.map(work_shared_response, jobs))
+    for k in range(0, len(results), 2):
+        a, b = results[k], results[k + 1]              # inline, by reference
+        sa, sb = jobs[k][1], jobs[k][2]
+        case = {"statuses_op_a": sa, "statuses_op_b": sb}
+        if a["error"] or b["error"]:
+            run.violation("harness-or-generator", {**case, "error": a["error"] or b["error"], "doc": a.get("doc"), "doc_ref": b.get("doc")})
+            continue
+        pos = [["response", p, m, st] for p, m, sts in (("/a", "get", sa), ("/b", "get", sb), ("/c", "delete", sa[:2])) for st in sts]
+        fd = first_diff(a["files"], b["files"])
+        run.note_case({**case, "check": "bytes"}, nontrivial=True, kind="shared-response")
+        if fd is not None or a["diag"] != b["diag"]:
+            run.violation("oracle", {**case, "doc": a["doc"], "doc_ref": b["doc"], "rewritten_positions": pos, "first_differing_file": fd,
+                                     "note": "one component response under several status codes: inline and by-reference documents generate different output"})
+        for lab, va, vb, ca, cb in zip(a["labels"], a["views"], b["views"], a["parsed_cls"], b["parsed_cls"]):
+            opn, st, variant = lab
+            run.note_case({**case, "operation": opn, "status": st, "variant": variant}, nontrivial=True, kind="shared-response:call")
+            documented = st in (["200"] + sa + ["202", "204"] if opn == "op_a" else sb + ["200"] if opn == "op_b" else sa[:2])
+            want = None if not documented or st in ("202", "204") else ("Pet" if (opn, st) == ("op_a", "200") else "list" if (opn, st) == ("op_b", "200") else "Err")
+            if va != vb or ca != cb:
+                run.violation("oracle", {**case, "doc": a["doc"], "doc_ref": b["doc"], "rewritten_positions": pos, "operation": opn, "status": st, "variant": variant,
+                                         "inline_client": va, "reference_client": vb, "first_differing_file": fd,
+                                         "note": "canned response with a documented status is parsed differently by the client generated from the inline and from the by-reference document"})
+            elif want is not None and ca != want and "exc" not in va:
+                run.violation("oracle", {**case, "doc": a["doc"], "doc_ref": b["doc"], "operation": opn, "status": st, "variant": variant, "parsed_class": ca, "expected_class": want,
+                                         "note": "a documented status is not dispatched to its documented response (both forms)"})
+
+
 def stage_b(run, tier):
     terms, meta = [], []
     for f in (stage_b_refstrings, stage_b_bodies, stage_b_params, stage_b_responses):
@@ -1517,6 +1618,7 @@ def _run(run, tier, replay=None):
     stage_c_malformed(run, tier)
     stage_c_schemas(run, tier)
     stage_c_broken_target(run, tier)
+    stage_c_shared_response(run, tier)
     run.assumptions += [
         "harness/translate/gen_params.py (ast reading of parameter_from_data / add_parameters / _property_from_ref / response_from_data / build_parameters; urllib.parse tables of the running interpreter)",
         "the abstraction of property_from_data / validate_location / _check_parameters_for_conflicts as the parameters build / validate / finish of Refs.add_loop (the theorems hold for ALL such functions; "
